@@ -22,6 +22,9 @@ type unitSpec struct {
 
 type absSpec struct {
 	Pure []string
+	// Methods: the FIXED interface (record fields), "pkg.F" for package-level constructors.  A call of anything
+	// else is refused.  (nil: the interface consists of the methods the file happens to call.)
+	Methods []string
 }
 
 var whitelist = []unitSpec{
@@ -40,14 +43,23 @@ var whitelist = []unitSpec{
 	// thin wrappers: every method except String / the constructors; the wrapped container is an abstract interface
 	{GoFile: "stacks/arraystack/arraystack.go", Module: "ArrayStackWrapGen", Skip: wrapSkip, Abstract: listAbs},
 	{GoFile: "queues/arrayqueue/arrayqueue.go", Module: "ArrayQueueWrapGen", Skip: wrapSkip, Abstract: listAbs},
-	{GoFile: "stacks/linkedliststack/linkedliststack.go", Module: "LinkedListStackWrapGen", Skip: wrapSkip, Abstract: listAbs},
-	{GoFile: "queues/linkedlistqueue/linkedlistqueue.go", Module: "LinkedListQueueWrapGen", Skip: wrapSkip, Abstract: listAbs},
+	{GoFile: "stacks/linkedliststack/linkedliststack.go", Module: "LinkedListStackWrapGen", Skip: wrapSkip, Abstract: sllAbs},
+	{GoFile: "queues/linkedlistqueue/linkedlistqueue.go", Module: "LinkedListQueueWrapGen", Skip: wrapSkip, Abstract: sllAbs},
 	// the ArrayList core, with capacity-aware slices (GoSlice.v)
 	{GoFile: "lists/arraylist/arraylist.go", Module: "ArrayListCoreGen", CapSlices: true,
 		Skip: map[string]string{"String": skipFmt, "Sort": "takes a comparator and calls slices.SortFunc (sorting is property C09's model)"}},
+	// Go maps (GoMap.v); range over a map visits the entries in the order of the parameter map_order
+	{GoFile: "maps/hashmap/hashmap.go", Module: "HashMapGen", Skip: map[string]string{"String": skipFmt}},
+	{GoFile: "sets/hashset/hashset.go", Module: "HashSetGen", Skip: map[string]string{"String": skipFmt}},
+	// table (Go map) + ordering (abstract doubly linked list); Iterator() is an abstract enumeration
+	{GoFile: "sets/linkedhashset/linkedhashset.go", Module: "LinkedHashSetGen", Skip: map[string]string{"String": skipFmt},
+		Abstract: dllOrdering},
+	{GoFile: "maps/linkedhashmap/linkedhashmap.go", Module: "LinkedHashMapGen", Skip: map[string]string{"String": skipFmt},
+		Abstract: dllOrdering},
 	{GoFile: "queues/priorityqueue/priorityqueue.go", Module: "PriorityQueueWrapGen",
-		Skip:         map[string]string{"String": skipFmt, "New": skipCtor, "NewWith": skipCtor},
-		Abstract:     map[string]absSpec{"heap": {Pure: []string{"Peek", "Empty", "Size", "Values"}}},
+		Skip: map[string]string{"String": skipFmt, "New": skipCtor, "NewWith": skipCtor},
+		Abstract: map[string]absSpec{"heap": {Pure: []string{"Peek", "Empty", "Size", "Values"},
+			Methods: []string{"Clear", "Empty", "Peek", "Pop", "Push", "Size", "Values"}}},
 		IgnoreFields: map[string]string{"Comparator": "comparator function value, only handed to the heap's constructor"}},
 }
 
@@ -57,4 +69,8 @@ const skipCtor = "constructor: only calls the wrapped container's package-level 
 var wrapSkip = map[string]string{"String": skipFmt, "New": skipCtor}
 
 // read-only methods of the list packages (arraylist, singlylinkedlist); backed by the effect table (C16)
-var listAbs = map[string]absSpec{"list": {Pure: []string{"Get", "Size", "Empty", "Values", "Contains", "IndexOf"}}}
+var listPure = []string{"Get", "Size", "Empty", "Values", "Contains", "IndexOf"}
+var listAbs = map[string]absSpec{"list": {Pure: listPure, Methods: []string{"Add", "Clear", "Empty", "Get", "Remove", "Size", "Values"}}}
+var sllAbs = map[string]absSpec{"list": {Pure: listPure, Methods: []string{"Add", "Append", "Clear", "Empty", "Get", "Prepend", "Remove", "Size", "Values"}}}
+var dllOrdering = map[string]absSpec{"ordering": {Pure: listPure,
+	Methods: []string{"Add", "Append", "Clear", "Get", "IndexOf", "Prepend", "Remove", "Size", "Values", "pkg.New"}}}
